@@ -48,6 +48,8 @@ def apply_variant(v, root):
 
 
 def run_variant(v):
+    import warnings
+    warnings.simplefilter('ignore')
     root = os.environ.get('PBV_REPO', '/repo')
     overlay = apply_variant(v, root)
     if overlay is None:
